@@ -1,4 +1,5 @@
 import WalrusVerif.Lemmas.LogStoreLemmas
+import WalrusVerif.Model.LogStoreFault
 /-!
 # C21 — Raft log store and peer address book across restarts
 
@@ -289,5 +290,86 @@ theorem C21_nonconsuming_holds (ops : List Op) :
 
 /-- on the witness history the non-consuming reader reports everything -/
 example : ((runNC {} {} witness).1.live.map (·.mem.log.length)) = some 4 := by decide +kernel
+
+/-! ### write failures below the store (`faulty` programs) -/
+
+/-- **A failed operation acknowledges nothing and takes nothing away.**  Whatever operation a write failure hits:
+the records already in the Raft log stay (the log only grows, by a prefix of what the operation would have written),
+the peer log and both read cursors are untouched. -/
+theorem C21_failed_operation_keeps_the_logs (n : Node) (op : Op) (k : Nat) (h : (stepFault n op k).2.1 = none) :
+    (∃ extra, (stepFault n op k).1.wal.recs = n.wal.recs ++ extra ∧
+      ∃ more, (step n op).1.wal.recs = n.wal.recs ++ extra ++ more) ∧
+    (stepFault n op k).1.pwal = n.pwal ∧ (stepFault n op k).1.wal.consumed = n.wal.consumed := by
+  have hcons : ∀ (w : Wal Rec) (rs : List Rec), (appendRecs w rs).consumed = w.consumed := by
+    intro w rs
+    induction rs generalizing w with
+    | nil => rfl
+    | cons r rs ih => simp only [appendRecs, List.foldl_cons] at ih ⊢; rw [ih]; rfl
+  unfold stepFault at h ⊢
+  cases hv : n.live with
+  | none => simp [hv] at h
+  | some lv =>
+    simp only [hv] at h ⊢
+    cases op with
+    | append es =>
+      by_cases hk : k < es.length
+      · simp only [hk, if_true]
+        refine ⟨⟨(es.take k).map Rec.entry, appendRecs_recs _ _, (es.drop k).map Rec.entry, ?_⟩, trivial, hcons _ _⟩
+        simp only [step, stepG, hv, appendRecs_recs, List.append_assoc, ← List.map_append, List.take_append_drop]
+      · simp [hk] at h
+    | truncate l =>
+      by_cases hk : k = 0
+      · simp only [hk, if_true]
+        exact ⟨⟨[], by simp, [.truncated l], by simp [step, stepG, hv, Wal.append]⟩, trivial, trivial⟩
+      · simp [hk] at h
+    | vote v =>
+      by_cases hk : k = 0
+      · simp only [hk, if_true]
+        exact ⟨⟨[], by simp, [.vote v], by simp [step, stepG, hv, Wal.append]⟩, trivial, trivial⟩
+      · simp [hk] at h
+    | committed c =>
+      by_cases hk : k = 0
+      · simp only [hk, if_true]
+        exact ⟨⟨[], by simp, [.committed c], by simp [step, stepG, hv, Wal.append]⟩, trivial, trivial⟩
+      · simp [hk] at h
+    | purge l =>
+      cases hp : memPurge lv.mem l with
+      | none => simp [hp] at h
+      | some m =>
+        by_cases hk : k = 0
+        · simp only [hp, hk, if_true]
+          exact ⟨⟨[], by simp, [.purged l], by simp [step, stepG, hv, hp, Wal.append]⟩, trivial, trivial⟩
+        · simp [hp, hk] at h
+    | open_ => simp at h
+    | restart => simp at h
+    | kill => simp at h
+    | peer i p => simp at h
+    | state => simp at h
+
+/-- **What the restarted store reports after a failed append.**  The logs hold the acknowledged state (`Inv`), no
+earlier `read_all` has consumed anything, and the write of the `(k+1)`-th entry of an append fails.  The process
+is restarted.  Then the reopened store reports the acknowledged state with the first `k` entries of the failed append
+inserted - entries that were never acknowledged may be there, everything acknowledged is. -/
+theorem C21_failed_append_then_reopen (n : Node) (a : Ack) (lv : Live) (es : List Ent) (k : Nat)
+    (hi : Inv n a) (hlive : n.live = some lv) (hc : n.wal.consumed = 0) (hk : k < es.length) :
+    (stepFault n (.append es) k).2.1 = none ∧
+    ((step (step (stepFault n (.append es) k).1 .kill).1 .open_).1.live.map (·.mem)) = some (memAppend a.mem (es.take k)) := by
+  unfold stepFault
+  simp only [hlive, hk, if_true]
+  refine ⟨trivial, ?_⟩
+  simp only [step, stepG, openWith, Wal.readAll, appendRecs_recs, Option.map_some]
+  have hcons : ∀ (w : Wal Rec) (rs : List Rec), (appendRecs w rs).consumed = w.consumed := by
+    intro w rs
+    induction rs generalizing w with
+    | nil => rfl
+    | cons r rs ih => simp only [appendRecs, List.foldl_cons] at ih ⊢; rw [ih]; rfl
+  rw [hcons, hc, List.drop_zero, replay_append, hi.log, replay_entries]
+
+/-- the first entry of a three-entry append is written, the second fails: the restarted store has the acknowledged
+entry 1 and the unacknowledged entry 2, not 3 and 4 -/
+example : (stepFault (run {} {} [.open_, .append [⟨⟨1, 1⟩, 5⟩]]).1 (.append [⟨⟨2, 1⟩, 7⟩, ⟨⟨3, 1⟩, 0⟩, ⟨⟨4, 1⟩, 64⟩]) 1).2.1 = none ∧
+    ((step (step (stepFault (run {} {} [.open_, .append [⟨⟨1, 1⟩, 5⟩]]).1
+        (.append [⟨⟨2, 1⟩, 7⟩, ⟨⟨3, 1⟩, 0⟩, ⟨⟨4, 1⟩, 64⟩]) 1).1 .kill).1 .open_).1.live.map (·.mem.log.map (·.1))) = some [2, 1] := by
+  decide +kernel
 
 end WalrusVerif.LogStore
